@@ -64,7 +64,16 @@ theorem docMatches_at_position (P : DProgram) (hc : GroupsCover P) (name : Str) 
   have hmem : (j, g) ∈ regsOf 0 (compileProgram P.rules P.fb) :=
     (mem_regsOf _ 0 (j, g)).mpr ⟨j, hj, by simp, hg⟩
   have hlt : g < P.groups.length := hc _ hmem
-  unfold docMatches addCalls
+  have hlow : (addCalls P).map AddCall.lowered =
+      (regsOf 0 (compileProgram P.rules P.fb)).filterMap fun r =>
+        P.groups[r.2]?.map fun g => (⟨r.1, g.1, lowerPats g.1 g.2⟩ : AddCall) := by
+    unfold addCalls
+    rw [List.map_filterMap]
+    congr 1
+    funext r
+    cases P.groups[r.2]? <;> simp [AddCall.lowered]
+  unfold docMatches docMatchesCore
+  rw [hlow]
   simp only [List.any_filterMap]
   rw [List.getD_eq_getElem?_getD, List.getElem?_map, List.getElem?_eq_getElem hlt]
   simp only [Option.map_some, Option.getD_some]
@@ -101,7 +110,7 @@ theorem match_with_real_domain_matcher (n : Nat) (P : DProgram) (pk : Pkt) (name
     (hn : plainName name = true) :
     matchReal n P pk name rxHits =
       some (firstMatchS (withName P pk name rxHits) P.rules P.fb false) := by
-  obtain ⟨b, hb, hidx⟩ := Props.domain_matcher_correct n (addCalls P) name rxHits hcalls hn
+  obtain ⟨b, hb, hidx⟩ := Props.domain_matcher_correct_any_case n (addCalls P) name rxHits hcalls hn
   unfold matchReal
   rw [hb]; simp only [matchWithBuilt, hidx]
   have hwf : (withName P pk name rxHits).WF := hp
@@ -117,6 +126,30 @@ theorem match_with_real_domain_matcher (n : Nat) (P : DProgram) (pk : Pkt) (name
   have hjn : j < n := Nat.lt_of_lt_of_le hj hlen
   rw [Bool.eq_iff_iff, List.contains_iff_mem, List.mem_filter, List.mem_range]
   simp [hjn]
+
+/-- **Empty domain.** A packet for which no domain is known satisfies NO `domain(...)` condition,
+whatever the patterns are (a regex such as `.*` matches the empty string, but `Match` does not ask the
+domain matcher for an empty name): the decision is the first-match decision with every domain
+condition false — negated domain conditions therefore hold. -/
+theorem empty_name_satisfies_no_domain_condition (b : Built) (P : DProgram) (pk : Pkt) (rxHits : List Nat)
+    (hp : pk.WF) (hr : ∀ r ∈ P.rules, r.WF) :
+    matchGuarded b P pk [] rxHits = some (firstMatchS { pk with dom := [] } P.rules P.fb false) := by
+  have hwf : ({ pk with dom := [] } : Pkt).WF := hp
+  rw [← C01.Props.match_is_first_match P.rules P.fb { pk with dom := [] } hwf hr]
+  unfold matchGuarded matchM
+  simp only [List.isEmpty_nil, if_true]
+  congr 1
+  apply scanIdx_eq_scanAux
+  intro j hj
+  cases hcond : (compileProgram P.rules P.fb)[j].cond <;> simp [evalM]
+
+/-- With a non-empty name `Match` is the real-matcher path of `match_with_real_domain_matcher`. -/
+theorem nonempty_name_uses_matcher (b : Built) (P : DProgram) (pk : Pkt) (name : Str) (rxHits : List Nat)
+    (hne : name ≠ []) : matchGuarded b P pk name rxHits = matchWithBuilt b P pk name rxHits := by
+  unfold matchGuarded
+  cases name with
+  | nil => exact absurd rfl hne
+  | cons c cs => simp
 
 end DaeVerif.Compose
 
@@ -144,5 +177,7 @@ example : (∀ a ∈ addCalls exP, callOk 8 a = true) ∧ (compileProgram exP.ru
   rcases hr with rfl | rfl <;> decide
 example : firstMatchS (withName exP exPk [65, 46, 98, 46, 67, 46] []) exP.rules exP.fb false = ⟨2, 0, false⟩ := by
   decide
+/-- the same packet without a name falls through both domain rules -/
+example : firstMatchS { exPk with dom := [] } exP.rules exP.fb false = ⟨0, 0, false⟩ := by decide
 
 end DaeVerif.Compose
